@@ -2,16 +2,16 @@
 From MC Require Import Lib.Base Model.Caches Proofs.CachesP.
 Local Open Scope N_scope.
 
-(* a cache with the emptiness guard (rule tables, full Unicode tables, definitions): whatever was asked before,
-   whatever loads failed before, the answer to a check is the fresh load of the key asked for *)
-Theorem guarded_cache_answers_fresh : forall V (load : str -> option V) s k, slot_inv load s ->
-  snd (fst (check load true s k)) = load k.
-Proof. exact L_guarded_answer_is_fresh. Qed.
-Print Assumptions guarded_cache_answers_fresh.
+(* whatever was asked before, whatever loads failed before, with or without the emptiness guard: the answer to a check
+   is the fresh load of the key asked for *)
+Theorem cache_answers_fresh : forall V (load : str -> option V) guard s k, slot_inv load s ->
+  snd (fst (check load guard s k)) = load k.
+Proof. exact L_answer_is_fresh. Qed.
+Print Assumptions cache_answers_fresh.
 
 (* ... for whole histories, of any length *)
-Theorem history_answers_are_fresh : forall V (load : str -> option V) ks s, slot_inv load s ->
-  map fst (snd (run load true s ks)) = map load ks.
+Theorem history_answers_are_fresh : forall V (load : str -> option V) guard ks s, slot_inv load s ->
+  map fst (snd (run load guard s ks)) = map load ks.
 Proof. exact L_history_answers_are_fresh. Qed.
 Print Assumptions history_answers_are_fresh.
 
@@ -21,11 +21,12 @@ Theorem cache_invariant : forall V (load : str -> option V),
 Proof. intros V load. split; [apply empty_inv | apply check_inv]. Qed.
 Print Assumptions cache_invariant.
 
-(* a cache without the guard (the short Unicode tables, the number patterns): the same, as long as no load has failed *)
-Theorem unguarded_cache_answers_fresh : forall V (load : str -> option V) s k, slot_inv load s ->
-  (s_key s <> None -> s_val s <> None) -> snd (fst (check load false s k)) = load k.
-Proof. exact L_unguarded_answer_is_fresh. Qed.
-Print Assumptions unguarded_cache_answers_fresh.
+(* a failed load is retried by the next check *)
+Theorem failed_load_is_retried : forall V (load : str -> option V) guard s k, slot_inv load s ->
+  snd (fst (check load guard s k)) = None ->
+  forall k', snd (check load guard (fst (fst (check load guard s k))) k') = true.
+Proof. exact L_failure_is_retried. Qed.
+Print Assumptions failed_load_is_retried.
 
 (* asking again for what is loaded costs nothing and changes nothing *)
 Theorem second_check_is_free : forall V (load : str -> option V) guard s k v,
